@@ -548,6 +548,31 @@ def _span_len(vals, v):
     return cases
 
 
+@adapter("sort_stable")
+def _sort_stable(vals, v):
+    """probe: std.sort / std.set with a projecting key function on arrays of 2..80 elements with many equal keys must
+    equal Python's stable sorted(); set operations on small sets must equal Python's"""
+    import random
+    rnd = random.Random(7)
+    cases = []
+    for n in (2, 3, 5, 8, 13, 29, 30, 31, 32, 45, 64, 80):
+        arr = [[rnd.randrange(0, 4), i] for i in range(n)]
+        exp = sorted(arr, key=lambda p: p[0])
+        cases.append({"source": "std.sort(%s, keyF=function(p) p[0])" % json.dumps(arr), "oracle": {"oracle": "stdout_json_equals", "expected": exp}})
+        seen, uniq = set(), []
+        for p in exp:
+            if p[0] not in seen:
+                seen.add(p[0]); uniq.append(p)
+        cases.append({"source": "std.set(%s, keyF=function(p) p[0])" % json.dumps(arr), "oracle": {"oracle": "stdout_json_equals", "expected": uniq}})
+    sets = [[], [1], [1, 3], [2, 3, 5], [1, 2, 3, 4], [0, 5, 9]]
+    for a in sets:
+        for b in sets:
+            cases.append({"source": "[std.setUnion(%s, %s), std.setInter(%s, %s), std.setDiff(%s, %s), std.setMember(3, %s)]" % (a, b, a, b, a, b, a),
+                          "oracle": {"oracle": "stdout_json_equals", "expected": [sorted(set(a) | set(b)), sorted(set(a) & set(b)), sorted(set(a) - set(b)), 3 in a]}})
+    cases.append({"source": "[std.minArray([[2, 0], [1, 1], [1, 2]], keyF=function(p) p[0]), std.maxArray([[2, 0], [3, 1], [3, 2]], keyF=function(p) p[0])]", "oracle": {"oracle": "stdout_json_equals", "expected": [[1, 1], [3, 1]]}})
+    return cases
+
+
 @adapter("crop")
 def _crop(vals, v):
     """every small crop size (and the counterexample's, clipped) on a run-time error with a 12-frame trace"""
